@@ -323,31 +323,33 @@ pub(crate) async fn run_command_loop(
     }
   }
 
-  // 2. Drain any remaining commands that arrived after shutdown started.
-  //    This prevents panics from senders whose receivers have been dropped.
-  // while let Some(cmd) = command_receiver.try_recv().ok() {
-  //     // Log and drop the command, replying with an error if possible.
-  //     tracing::warn!(handle = core_handle, cmd = %cmd.variant_name(), "Dropping command received during final shutdown.");
-  //     // Best-effort attempt to notify the caller that the socket is closed.
-  //     match cmd {
-  //         Command::UserBind { reply_tx, .. } |
-  //         Command::UserConnect { reply_tx, .. } |
-  //         Command::UserDisconnect { reply_tx, .. } |
-  //         Command::UserUnbind { reply_tx, .. } |
-  //         Command::UserSetOpt { reply_tx, .. } |
-  //         Command::UserMonitor { reply_tx, .. } |
-  //         Command::UserClose { reply_tx, .. } => {
-  //             let _ = reply_tx.send(Err(ZmqError::InvalidState("Socket closed")));
-  //         },
-  //         Command::UserGetOpt { reply_tx, .. } => {
-  //             let _ = reply_tx.send(Err(ZmqError::InvalidState("Socket closed")));
-  //         },
-  //         Command::UserRecv { reply_tx, .. } => {
-  //             let _ = reply_tx.send(Err(ZmqError::InvalidState("Socket closed")));
-  //         },
-  //         _ => {} // Other commands have no reply channel
-  //     }
-  // }
+  // 2. Answer the commands that were queued behind the shutdown: their callers are awaiting a reply,
+  //    and a queued command (with its reply sender) is not dropped along with the receiver as long as
+  //    any socket handle keeps the mailbox alive. Then close the mailbox so that later calls fail at once.
+  while let Ok(cmd) = command_receiver.try_recv() {
+    tracing::debug!(handle = core_handle, cmd = %cmd.variant_name(), "Answering command queued behind the shutdown.");
+    match cmd {
+      Command::UserClose { reply_tx } => {
+        let _ = reply_tx.send(Ok(()));
+      }
+      Command::UserBind { reply_tx, .. }
+      | Command::UserConnect { reply_tx, .. }
+      | Command::UserDisconnect { reply_tx, .. }
+      | Command::UserUnbind { reply_tx, .. }
+      | Command::UserSetOpt { reply_tx, .. }
+      | Command::UserMonitor { reply_tx, .. } => {
+        let _ = reply_tx.send(Err(ZmqError::InvalidState("Socket is closed".into())));
+      }
+      Command::UserGetOpt { reply_tx, .. } => {
+        let _ = reply_tx.send(Err(ZmqError::InvalidState("Socket is closed".into())));
+      }
+      Command::UserRecv { reply_tx, .. } => {
+        let _ = reply_tx.send(Err(ZmqError::InvalidState("Socket is closed".into())));
+      }
+      _ => {} // no reply channel
+    }
+  }
+  drop(command_receiver);
 
   // If loop exited due to an error that wasn't already part of a graceful shutdown,
   // ensure shutdown is initiated and as much cleanup as possible happens.
